@@ -773,7 +773,7 @@ func (t *sourceTracer) DataQueue() []tracerMutation {
 
 	// copy and flush
 	ret := t.dataQueue
-	t.dataLatest = nil
+	t.dataQueue = nil
 
 	return ret
 }
